@@ -360,18 +360,33 @@ PROPS["C06"] = {
                      "makes the check fail, never pass wrongly: checkCfg_sound)"],
     "assumptions": ["variables the USER declared without initialiser (`let v: T;`) are not compiler temporaries: reads of them are "
                     "exempt (their numbering is taken from the model walk, tied to the real IR by the exact comparison)"],
-    "level_text": "proof of the checker, per-output decision for the builder: checkCfg_sound — if the certificate check accepts a "
-                  "function body then for EVERY path from the entry every jump target exists, control never reaches a block "
-                  "without terminator or the unreachable marker, and every local read is preceded by an assignment on that path; "
-                  "returns_value_on_every_path — a body accepted by checkFn as value-returning has no return without a value on any "
-                  "path. The check is run on the real IR of every generated accepted program AND on the function bodies re-read from "
-                  "the real header (translation validation at both ends); the statement "
-                  "'every output of the builder passes the check, for all programs' (build_passes_check_full_statement) is not "
-                  "proved.",
-    "level_note": "trusted: Lean kernel; IR serialiser; partial: the ∀-programs theorem about the builder is missing — programs not "
-                  "generated are covered only through the exact model/implementation IR correspondence; F1 (non-empty tail block "
-                  "marked unreachable) and F17 (empty switch panic) are repaired in /repo",
-    "technique": "Lean 4 proof of a CFG certificate checker (sound for all paths) applied to every real IR + exact-IR differential correspondence",
+    "level_text": "proof for ALL programs about the model builder (tied to the real code by the exact-IR stream) AND proof of the checker "
+                  "run on every real output. Builder, for every context and program whatever its diagnostics: build_targets_exist — every "
+                  "jump of a built body targets an existing block; build_blocks_terminated — every block has a terminator; "
+                  "build_defines_before_use — on EVERY path from the entry every read of a local (compiler temporary or variable declared "
+                  "with initialiser) is preceded on that path by an assignment, parameters are assigned on entry, variables the user "
+                  "declared without initialiser are exempt; and when build reports no panic: build_unreachable_isolated — a block carrying "
+                  "the unreachable marker is not the entry and NO block jumps to it (the invariant of finalize_completion_values' reverse "
+                  "walk), build_no_reachable_unreachable, and build_passes_check_semantic — the WHOLE conclusion of checkCfg_sound holds for "
+                  "every output of the builder on every path (semantic form, not `check … = true`, which would also depend on the untrusted "
+                  "certificate producers). Checker: checkCfg_sound — a body accepted by the certificate check has, for EVERY path, existing "
+                  "jump targets, no block without terminator or with the marker reached, every read preceded by an assignment; "
+                  "returns_value_on_every_path — a body accepted by checkFn as value-returning has no return without a value on any path. "
+                  "The check is still run on the real IR of every generated accepted program AND on the function bodies re-read from the "
+                  "real header: that covers what the builder theorems do not — the model/implementation correspondence itself, the "
+                  "property-dependency pass that inserts observe statements after build, and the C++ emission.",
+    "level_note": "trusted: Lean kernel; IR serialiser; the ∀-programs theorems are about the Lean model of the builder and reach the real "
+                  "builder through the exact model/implementation IR comparison of every run (differential, not proved); not covered by "
+                  "them and decided per output: analyze_code_property_dependency (observeProperty statements) and the C++ emitter "
+                  "(cfgcheck-cxx); F1 (non-empty tail block marked unreachable), F17 (empty switch panic) and F100 (a variable declared "
+                  "with initialiser in one switch clause could be read unassigned in a later clause — found by the proof attempt of "
+                  "build_defines_before_use, whose invariant failed at walkBodies; pre-repair witness "
+                  "Props.C06.f100_defines_before_use_old_refuted) are repaired in /repo; build_passes_check_full_statement (`check code = "
+                  "true`, without the exemption of user-uninitialised variables, e.g. `{ let v: int; return v }`) stays an unproved "
+                  "definition and is superseded by build_passes_check_semantic",
+    "technique": "Lean 4 proofs by induction over the model walk (control-flow skeleton invariant + define-before-use certificate constructed "
+                 "along the walk + graph invariant of the finalisation) and of a CFG certificate checker applied to every real IR; exact-IR "
+                 "differential correspondence",
 }
 
 # PROPS blocks for C04, C14, C20 — to be pasted into /verif/tools/qvconfig.py
